@@ -532,7 +532,10 @@ class MRunner(Runner):
                 job = job_q.get()
 
                 if job is None:
-                    self.teardown()
+                    # threads share this runner object (and its teardown_list),
+                    # teardown is executed only once by `finish()`
+                    if self.Child == Process:
+                        self.teardown()
                     return  # no more tasks to execute finish this process
 
                 # job is an incomplete Task obj when pickled, attrbiutes
